@@ -145,10 +145,15 @@ impl BlobTree {
         std::fs::create_dir_all(&blobs_folder)?;
         fsync_directory(&blobs_folder)?;
 
-        let blob_file_id_to_continue_with = index
-            .current_version()
+        // NOTE: The fragmentation stats may still hold entries of blob files that already left the version,
+        // so their IDs must not be handed out again (otherwise a new blob file inherits stale garbage stats
+        // and may be dropped while it is still referenced)
+        let current_version = index.current_version();
+
+        let blob_file_id_to_continue_with = current_version
             .blob_files
             .list_ids()
+            .chain(current_version.gc_stats().keys())
             .max()
             .map(|x| x + 1)
             .unwrap_or_default();
